@@ -99,6 +99,11 @@ func (a Complex) M__pos__() (Object, error) {
 	return a, nil
 }
 
+// A complex number is false when it is zero
+func (a Complex) M__bool__() (Object, error) {
+	return NewBool(a != 0), nil
+}
+
 func (a Complex) M__abs__() (Object, error) {
 	return Float(cmplx.Abs(complex128(a))), nil
 }
